@@ -312,7 +312,7 @@ func c05Universe() []string {
 	seen := map[string]bool{}
 	var u []string
 	add := func(s string) {
-		if !seen[s] && len(s) < 400 {
+		if !seen[s] && len(s) < 4000 {
 			seen[s] = true
 			u = append(u, s)
 		}
@@ -365,6 +365,12 @@ func c05Universe() []string {
 	}
 	for _, q := range []string{"q'(report]' or 1=1 -- for the third quarter)'", "q'[a]' or 1=1", "nq'{x}' union select 1", "q'!a!' or 1=1 -- ", "q'<a>' or 1=1", "q'(a)' or q'[b]'='b'", "Q'|x|' or 1=1", "q'\xe9a\xe9' or 1=1", "1 or q'(a))' union select 1", "q'#a#'", "nq'(abc)'='abc'", "q'(a", "x' or q'[z]'=q'(z)' -- "} {
 		add(q)
+	}
+	long := strings.Repeat("abcdefghij", 120)
+	for _, s := range []string{"<a href=\"http://example.com/" + long + "\">", "<a href=\"javascript:alert(1)//" + long + "\">", "<img src='" + long + "javascript:'>", "<a href=\"" + long + "\">x</a>", "<form action='data:" + long + "'>",
+		"x' or '" + long + "'='" + long, "1 union select '" + long + "'", long + " -- sp_password",
+		"<animate attributeName=\"opacity\" dur=\"2s\"/>", "<set attributeName=x to=y>", "<animate attributename=onclick>", "<svg><animate attributeName='href' values='x'/></svg>"} {
+		add(s)
 	}
 	for _, f := range gen.FragSQL {
 		add("1 " + f + " 1")
